@@ -102,7 +102,8 @@ CLAIMED = {
             "qualifier + sibling agreement of __eq__",
             "Static necessary conditions: start variable and ordering option forwarded to derived grammars, no "
             "hard-coded `S`, options 1..8 handled, orderings return permutations, __eq__ siblings read accessors "
-            "consistently, the marking loop dispatches on both rule kinds and answers `empty` after convergence. The "
+            "consistently, the marking loop dispatches on both rule kinds and answers `empty` after convergence, every "
+            "insertion into a marked set raises the routine's change flag. The "
             "value of the fixpoint is not decided."),
     "C18": ("ownership (unify on copies) + iterator-invalidation rule + DEREF typestate + structural coverage of copy / "
             "subsumes / unify + fresh dummy head",
@@ -121,7 +122,8 @@ CLAIMED = {
             "pattern recogniser + branch-fact (guard) analysis of every yield + cache-field pairing",
             "Static necessary conditions only (narrow claim): is_empty answers from the start symbol and the generating "
             "set; the generating / nullable accessors run the shared counting fixpoint in the right constant mode, "
-            "terminals seed it in generating mode only, empty-body heads in both, each accessor returns what it stores "
+            "terminals seed it in generating mode only, empty-body heads and an Epsilon instance in both, every push on its "
+            "worklist is guarded by a not-yet-known test (each symbol popped once), each accessor returns what it stores "
             "in its own cache field; get_reachable_symbols is a closure worklist from the start symbol over whole bodies "
             "keyed by heads; is_finite builds its graph from the normal form with edges to both symbols of a binary body "
             "and hands it to the cycle test; get_words yields the empty word under start-in-nullable for every bound, "
@@ -134,8 +136,9 @@ CLAIMED = {
             "Static analysis over all paths of every public non-mutator method (per concrete receiver class, callees "
             "inlined): no operand write (undeclared private fields are judged as caches by their discipline: filled under "
             "their own test, reset by every mutator that matters or per call, keyed by every argument the value depends "
-            "on, never updated outside the fill), cache disciplines D1-D5, fresh results of conversions, no operand-owned "
-            "container handed out as an element. Decides those clauses "
+            "on, never updated outside the fill, never consumed), cache disciplines D1-D5 (scratch counters restored with "
+            "multiplicity), fresh results of conversions, no operand-owned container handed out as an element, no mutable "
+            "element yielded that the generator also keeps in its working storage. Decides those clauses "
             "for every call history, which no finite test history does; value-level dependence on history is not "
             "decided."),
 }
